@@ -12,6 +12,7 @@ package sched
 import (
 	"context"
 	"fmt"
+	"strings"
 	"sync"
 	"time"
 
@@ -91,6 +92,8 @@ type FetchRun struct {
 	maxConc      int
 	curGets      int
 	Slow         map[int]bool // ids whose Get never answers before the deadline
+	Desc         bool         // default policy releases the largest parked id first (instead of the smallest)
+	GatesFirst   bool         // default policy completes every outstanding fetch before letting any worker process
 	cancelled    bool
 	FreeRunLimit time.Duration
 	freeRun      bool // no gating at all (used after a timeout and for free-running runs)
@@ -297,15 +300,50 @@ func (r *FetchRun) Drive(api *fakeipfs.API, schedule []Choice, start func(), can
 			}
 		}
 	}()
+	errStalled := fmt.Errorf("stalled")
 	waitQuiet := func() error {
 		deadline := time.Now().Add(20 * time.Second)
+		lastEvents, lastChange := r.Events, time.Now()
 		for !r.quiescentLocked(finished) {
+			if r.Events != lastEvents {
+				lastEvents, lastChange = r.Events, time.Now()
+			}
+			// no hook event and no gate arrival for 2 s although the bookkeeping says somebody should
+			// move: the code no longer follows the slot / lock discipline the bookkeeping assumes
+			if time.Since(lastChange) > 2*time.Second {
+				return errStalled
+			}
 			if time.Now().After(deadline) {
 				return fmt.Errorf("no quiescence within 20s: main=%s workers=%v launched=%d passedPD=%d", r.mainState, r.workers, r.launched, r.passedPD)
 			}
 			r.cond.Wait()
 		}
 		return nil
+	}
+	// stalled: let everything parked go, give the loader 3 s, then decide from the goroutine dump whether
+	// every fetcher goroutine is blocked on a lock / condition variable / semaphore (a deadlock)
+	resolveStall := func() (bool, error) {
+		r.freeRun = true
+		for h, ch := range r.gate {
+			delete(r.gate, h)
+			close(ch)
+		}
+		for h, ch := range r.fetched {
+			delete(r.fetched, h)
+			close(ch)
+		}
+		deadline := time.Now().Add(3 * time.Second)
+		for !finished && time.Now().Before(deadline) {
+			r.cond.Wait()
+		}
+		if finished {
+			r.Followed = false
+			return false, nil
+		}
+		if fetcherGoroutinesAllBlocked() {
+			return true, nil
+		}
+		return false, fmt.Errorf("stalled without a confirmed deadlock: main=%s workers=%v", r.mainState, r.workers)
 	}
 	r.mu.Lock()
 	defer r.mu.Unlock()
@@ -349,6 +387,9 @@ func (r *FetchRun) Drive(api *fakeipfs.API, schedule []Choice, start func(), can
 		return false
 	}
 	if err := waitQuiet(); err != nil {
+		if err == errStalled {
+			return resolveStall()
+		}
 		return false, err
 	}
 	for _, c := range schedule {
@@ -358,27 +399,48 @@ func (r *FetchRun) Drive(api *fakeipfs.API, schedule []Choice, start func(), can
 		if c.Kind == "L" || c.Kind == "W" {
 			continue
 		}
+		if c.Kind == "DESC" {
+			r.Desc = true
+			continue
+		}
+		if c.Kind == "GATESFIRST" {
+			r.GatesFirst = true
+			continue
+		}
 		if !release(c) {
 			r.Followed = false
 			continue
 		}
 		if err := waitQuiet(); err != nil {
+			if err == errStalled {
+				return resolveStall()
+			}
 			return false, err
 		}
 	}
 	// default policy: smallest parked item first, fetched before gate
 	for !finished {
 		var pick *Choice
-		if !r.mainHoldsMutexBlocked() {
+		if r.GatesFirst && len(r.gate) > 0 {
+			for h := range r.gate {
+				if r.Slow[h] && !r.cancelled {
+					continue
+				}
+				if pick == nil || (h < pick.H) != r.Desc {
+					pick = &Choice{Kind: "F", H: h}
+				}
+			}
+		}
+		if pick == nil && !r.mainHoldsMutexBlocked() {
 			for h := range r.fetched {
-				if pick == nil || pick.Kind != "P" || h < pick.H {
+				if pick == nil || pick.Kind != "P" || (h < pick.H) != r.Desc {
 					pick = &Choice{Kind: "P", H: h}
 				}
 			}
 		}
 		if pick == nil {
 			for h := range r.gate {
-				if pick == nil || h < pick.H {
+				if pick == nil || (h < pick.H) != r.Desc {
 					pick = &Choice{Kind: "F", H: h}
 				}
 			}
@@ -413,10 +475,40 @@ func (r *FetchRun) Drive(api *fakeipfs.API, schedule []Choice, start func(), can
 		}
 		release(*pick)
 		if err := waitQuiet(); err != nil {
+			if err == errStalled {
+				return resolveStall()
+			}
 			return false, err
 		}
 	}
 	return false, nil
+}
+
+// fetcherGoroutinesAllBlocked inspects the goroutine dump: every goroutine that is inside the library's
+// fetcher must be waiting (semaphore, mutex, condition variable, channel), none running or runnable.
+func fetcherGoroutinesAllBlocked() bool {
+	dump := Stacks()
+	found := false
+	for _, g := range strings.Split(dump, "\n\n") {
+		if !strings.Contains(g, "go-ipfs-log/entry.(*Fetcher)") {
+			continue
+		}
+		found = true
+		head := g
+		if i := strings.Index(g, "\n"); i > 0 {
+			head = g[:i]
+		}
+		blocked := false
+		for _, st := range []string{"semacquire", "sync.Cond.Wait", "sync.Mutex.Lock", "sync.RWMutex", "chan receive", "select", "sync.WaitGroup"} {
+			if strings.Contains(head, st) {
+				blocked = true
+			}
+		}
+		if !blocked {
+			return false
+		}
+	}
+	return found
 }
 
 // SetFree disables all gating: the loader runs on its own (real-time deadline runs).
